@@ -10,6 +10,7 @@ import (
 	"bytes"
 	"os"
 	"path/filepath"
+	"reflect"
 	"testing"
 
 	"pgregory.net/rapid"
@@ -20,6 +21,10 @@ import (
 // ManifestCase: base configuration (Sets on the default), then updates.
 type ManifestCase struct {
 	Updates []Set `json:"updates"` // applied one by one through UpdateConfig, each followed by Save + LoadManifest
+	// Pokes: assignments made directly through the pointer GetConfig() hands out
+	// (the manifest shares it), each followed by Save: an invalid configuration
+	// must be rejected by Save before anything is written
+	Pokes []Set `json:"pokes,omitempty"`
 }
 
 func runManifest(c *Case) *Fail {
@@ -92,6 +97,35 @@ func runManifest(c *Case) *Fail {
 			return f
 		}
 	}
+	for pi, u := range c.Manifest.Pokes {
+		live := m.GetConfig()
+		saved := cloneCfg(live)
+		want := cloneCfg(live)
+		if err := setField(want, u.Field, u.Val, root); err != nil {
+			continue
+		}
+		verdict, fl := tableVerdict(want)
+		before, _ := os.ReadFile(mpath)
+		_ = setField(live, u.Field, u.Val, root)
+		serr := m.Save()
+		now, _ := os.ReadFile(mpath)
+		switch {
+		case verdict == vInvalid && serr == nil:
+			return failf("manifest/save-accepts-invalid/"+fl.Field+"/"+fl.Class, "poke %d: %s=%s assigned through GetConfig() violates %q, but Save returned nil (stored manifest changed: %v)", pi, u.Field, u.Val, fl.Doc, !bytes.Equal(now, before))
+		case verdict == vInvalid && !bytes.Equal(now, before):
+			return failf("manifest/rejected-save-changed-file", "poke %d: Save rejected %s=%s (%v) but the stored manifest changed", pi, u.Field, u.Val, serr)
+		case verdict == vValid && serr != nil:
+			return failf("manifest/save-fails-valid", "poke %d: %s=%s (no documented violation): Save: %v", pi, u.Field, u.Val, serr)
+		}
+		if verdict == vValid && serr == nil {
+			if f := reload("after poke "+u.Field, want); f != nil {
+				return f
+			}
+			continue
+		}
+		// put the shared configuration back so that the next step starts valid
+		reflectCopy(live, saved)
+	}
 	return nil
 }
 
@@ -108,6 +142,14 @@ func genManifest(t *rapid.T) Case {
 			_ = setField(cur, f.Name, v, genRoot)
 		}
 	}
+	for i, n := 0, rapid.IntRange(0, 3).Draw(t, "npokes"); i < n; i++ {
+		f := fs[rapid.IntRange(0, len(fs)-1).Draw(t, "pfield")]
+		v := drawValue(t, f, cur, "any")
+		c.Manifest.Pokes = append(c.Manifest.Pokes, Set{Field: f.Name, Val: v})
+		if verdictWith(cur, f.Name, v) == vValid {
+			_ = setField(cur, f.Name, v, genRoot)
+		}
+	}
 	return c
 }
 
@@ -116,4 +158,15 @@ func TestPropManifest(t *testing.T) {
 		c := genManifest(t)
 		check(t, &c)
 	})
+}
+
+// reflectCopy copies the exported fields of src into dst (in place).
+func reflectCopy(dst, src *config.Config) {
+	d, s := reflect.ValueOf(dst).Elem(), reflect.ValueOf(src).Elem()
+	t := d.Type()
+	for i := 0; i < t.NumField(); i++ {
+		if t.Field(i).IsExported() {
+			d.Field(i).Set(s.Field(i))
+		}
+	}
 }
